@@ -14,6 +14,7 @@ import sys
 import time
 
 REPO = "/repo"
+SCRATCH = "/tmp/mut-main/repo"     # mutants are applied to a scratch copy, never to /repo
 VERIF = os.path.dirname(os.path.dirname(os.path.abspath(__file__)))
 TK = "src/target/trx_toolkit/"
 
@@ -44,6 +45,22 @@ M = [
  ("M033", ["C19"], TK + "gsm_shared.py", "\t\ttc = (fn // 51) % 8\n", "\t\ttc = (fn // 52) % 8\n", "Python TC differs from C"),
  ("M034", ["C19", "C07"], TK + "gsm_shared.py", "\t\tt1 = fn // (26 * 51)\n", "\t\tt1 = fn // (26 * 51) % 1024\n", "Python T1 wraps at 1024"),
  ("M035", ["C19"], "src/target/firmware/layer1/sync.c", "\tif (delta_fn == 1) {", "\tif (delta_fn <= 2) {", "delta 2 treated as delta 1"),
+ ("M040", ["C02"], TK + "burst_fwd.py", "\t\t\tif trx == src_trx:\n\t\t\t\tcontinue\n", "", "sender not skipped"),
+ ("M041", ["C02"], TK + "burst_fwd.py", "\t\t\tif not trx.running:\n\t\t\t\tcontinue\n", "", "powered-off recipients served"),
+ ("M042", ["C02"], TK + "transceiver.py", "\t\t(_, tx_freq) = self.fh.resolve(fn)", "\t\t(tx_freq, _) = self.fh.resolve(fn)", "hopping sender transmits on the rx frequency of the pair"),
+ ("M043", ["C02"], TK + "burst_fwd.py", "if trx.get_rx_freq(rx_msg.fn) != tx_freq:", "if trx.get_rx_freq(rx_msg.fn + 1) != tx_freq:", "recipient hopping evaluated for the next frame"),
+ ("M044", ["C02", "C07"], TK + "gsm_shared.py", "(mp + (t3 & self._pnm)) % ma_len", "(mp + t3 & self._pnm) % ma_len", "original precedence defect in S = (M'+T') mod N"),
+ ("M045", ["C02"], TK + "transceiver.py", "\tdef get_rx_freq(self, fn):\n\t\tif self.fh is None:", "\tdef get_rx_freq(self, fn):\n\t\tif self.fh is None or self._rx_freq is not None:", "stale RXTUNE value preferred over the hopping sequence"),
+ ("M046", ["C02"], TK + "burst_fwd.py", "\t\ttx_freq = src_trx.get_tx_freq(rx_msg.fn)\n", "\t\ttx_freq = src_trx.get_tx_freq(rx_msg.fn % 1326)\n", "sender hopping evaluated with FN modulo superframe (T1 lost)"),
+ ("M050", ["C03"], TK + "transceiver.py", "\t\twith self._tx_queue_lock:\n\t\t\tfor msg in self._tx_queue:", "\t\tif True:\n\t\t\tfor msg in self._tx_queue:", "clck_tick partitions the queue without the lock"),
+ ("M051", ["C03"], TK + "transceiver.py", "\tdef tx_queue_append(self, msg):\n\t\twith self._tx_queue_lock:", "\tdef tx_queue_append(self, msg):\n\t\tif True:", "append without the lock (harmless alone: append is atomic)"),
+ ("M052", ["C03"], TK + "transceiver.py", "\t\t\t\tif fn_ahead == 0:", "\t\t\t\tif fn_ahead <= 1:", "burst emitted one frame early"),
+ ("M053", ["C03"], TK + "transceiver.py", "\t\t\t\tfn_ahead = (msg.fn - fn) % GSM_HYPERFRAME\n", "\t\t\t\tfn_ahead = (msg.fn - fn) if msg.fn >= fn else GSM_HYPERFRAME\n", "original plain comparison at the hyperframe wrap"),
+ ("M054", ["C03"], TK + "transceiver.py", "\t\tfor msg in drop:\n\t\t\tlog.warning(", "\t\tfor msg in drop[1:]:\n\t\t\tlog.warning(", "first stale burst vanishes silently"),
+ ("M055", ["C03"], TK + "transceiver.py", "\t\t\t\t\tdrop.append(msg)\n\n\t\t\tself._tx_queue = wait\n", "\t\t\t\t\tdrop.append(msg)\n\n\t\tself._tx_queue = wait\n", "queue replaced after the lock was released"),
+ ("M056", ["C03"], TK + "transceiver.py", "\t\t\t\t\temit.append(msg)\n", "\t\t\t\t\temit.append(msg)\n\t\t\t\t\tif len(self._tx_queue) > 2:\n\t\t\t\t\t\twait.append(msg)\n", "burst kept after emission when three are queued (late duplicate / stale report)"),
+ ("M057", ["C03"], TK + "transceiver.py", "\tdef tx_queue_clear(self):\n\t\twith self._tx_queue_lock:\n\t\t\tself._tx_queue.clear()", "\tdef tx_queue_clear(self):\n\t\twith self._tx_queue_lock:\n\t\t\tself._tx_queue = self._tx_queue[:0] if len(self._tx_queue) != 1 else self._tx_queue", "POWEROFF keeps a single queued burst"),
+ ("M058", ["C03"], TK + "transceiver.py", "\t\t# Enqueue the message, it will be sent later\n\t\tself.tx_queue_append(msg)", "\t\t# Enqueue the message, it will be sent later\n\t\tq = self._tx_queue\n\t\tq.append(msg)", "arrival appends to a stale reference of the queue list, bypassing the lock"),
 ]
 
 
@@ -52,7 +69,7 @@ def sh(cmd, **kw):
 
 
 def apply(file, old, new):
-    p = os.path.join(REPO, file)
+    p = os.path.join(SCRATCH, file)
     s = open(p).read()
     if s.count(old) < 1:
         return False
@@ -67,10 +84,8 @@ def main():
     if "--prop" in sys.argv:
         prop = sys.argv[sys.argv.index("--prop") + 1]
         args = [a for a in args if a != prop]
-    st = sh("git -C %s status --porcelain" % REPO).stdout.strip()
-    if st:
-        print("refusing: /repo has uncommitted changes:\n" + st)
-        return 2
+    sh("rm -rf /tmp/mut-main && mkdir -p /tmp/mut-main && rsync -a --exclude .git %s/ %s/" % (REPO, SCRATCH))
+    env = dict(os.environ, VERIF_REPO=SCRATCH)
     rows = []
     for mid, props, file, old, new, note in M:
         if args and mid not in args:
@@ -85,7 +100,7 @@ def main():
             res = {}
             for p in props:
                 t = time.time()
-                r = sh("./check %s --tier quick" % p, cwd=VERIF, timeout=3600)
+                r = sh("./check %s --tier quick" % p, cwd=VERIF, timeout=3600, env=env)
                 caught = r.returncode == 1 and "VIOLATION property=%s" % p in r.stdout
                 res[p] = "caught" if caught else ("rc=%d" % r.returncode)
                 if not caught:
@@ -93,13 +108,14 @@ def main():
                 res[p] += " %.0fs" % (time.time() - t)
             tr = ""
             if tests:
-                r = sh("cd /repo && /venv/bin/python -m pytest -q -p no:cacheprovider --timeout=900 2>&1 | tail -1")
+                r = sh("cd %s && /venv/bin/python -m pytest -q -p no:cacheprovider --timeout=900 2>&1 | tail -1" % SCRATCH)
                 tr = " | suite: " + r.stdout.strip()
             print("%s %-60s %s%s" % (mid, note, json.dumps(res), tr), flush=True)
             rows.append((mid, res))
         finally:
-            sh("git -C %s checkout -- ." % REPO)
+            sh("rsync -a --exclude .git --exclude __pycache__ %s/%s %s/%s" % (REPO, file, SCRATCH, file))
             sh("rm -f %s/replays/*.json" % VERIF)
+    sh("rm -rf /tmp/mut-main")
     return 0
 
 
